@@ -42,6 +42,39 @@ def run(chk: Check, proj: Project) -> None:
     deferred_live_context(chk, "S6", proj)
     s7(chk, proj, w)
     s8(chk, proj, w)
+    s9(chk, proj, w)
+
+
+def s9(chk: Check, proj: Project, w) -> None:
+    chk.rule("S9", "inject() inside DEFERRED hooks: the metadata that on_render_before / on_render_after run under does not carry the live context of the tag (which has left the {% provide %} scope by then) but a snapshot")
+    r = proj.try_func("component", "Component._render_with_id") or proj.try_func("component", "Component._render_impl")
+    m, f = r  # type: ignore[misc]
+    chk.analysed(fkey(m, f))
+    md = [c for c in calls(f, "MetadataItem")]
+    if len(md) != 1:
+        chk.undecided("S9", "component:render:deferred-metadata-context", m.loc(f), f"{len(md)} MetadataItem(...) constructions")
+        return
+    ri = next((k.value for k in md[0].keywords if k.arg == "input"), None)
+    ctxv = next((k.value for k in ri.keywords if k.arg == "context"), None) if isinstance(ri, ast.Call) else None
+    if ctxv is None:
+        chk.undecided("S9", "component:render:deferred-metadata-context", m.loc(md[0]), "RenderInput(context=...) not found")
+        return
+    st = enclosing_stmt(md[0])
+    mvar = st.targets[0].id if isinstance(st, ast.Assign) and isinstance(st.targets[0], ast.Name) else None
+    # does the SAME metadata object reach deferred code? (the renderer factory / the post-render callback closure)
+    deferred_uses = []
+    for c in calls(f, "_gen_component_renderer"):
+        if any(isinstance(k.value, ast.Name) and k.value.id == mvar for k in c.keywords) or any(isinstance(a, ast.Name) and a.id == mvar for a in c.args):
+            deferred_uses.append(c)
+    for g in [x for x in ast.walk(f) if isinstance(x, ast.FunctionDef) and x is not f]:
+        for c in calls(g, "_with_metadata"):
+            if c.args and isinstance(c.args[0], ast.Name) and c.args[0].id == mvar:
+                deferred_uses.append(c)
+    live = isinstance(ctxv, ast.Name) and ctxv.id in params(f) and not any(isinstance(v, ast.Call) and last_attr(v.func) == "snapshot_context" for _s, v in assignments(f, ctxv.id) if v is not None)
+    bad = live and bool(deferred_uses)
+    chk.ob("S9", "component:render:deferred-metadata-context", m.loc(deferred_uses[0]) if deferred_uses else m.loc(md[0]), not bad,
+           "deferred hooks run under metadata whose context is a snapshot (or no metadata reaches deferred code)" if not bad else
+           f"the metadata built with `context={norm(ctxv)}` (the live context of the tag) is what the deferred renderer and the post-render callback push before calling on_render_before / on_render_after: inject() there looks the key up in a context that has already left the {{% provide %}} scope (django mode: returns the default / raises KeyError although the provider encloses the component)")
 
 
 def s8(chk: Check, proj: Project, w) -> None:
